@@ -269,8 +269,10 @@ def parent_main(prop: str, tier: str, seed: int, replay: str | None, jobs: int) 
         "inconclusive_reasons": inconc[:10],
     }
     if not replay:
-        (VERIF / "evidence").mkdir(exist_ok=True)
-        (VERIF / "evidence" / f"{prop}.json").write_text(json.dumps(evidence, indent=1))
+        # VF_EVIDENCE_DIR: exploratory sweeps (other seeds) keep the committed evidence of the registered command untouched
+        edir = Path(os.environ.get("VF_EVIDENCE_DIR") or (VERIF / "evidence"))
+        edir.mkdir(parents=True, exist_ok=True)
+        (edir / f"{prop}.json").write_text(json.dumps(evidence, indent=1))
 
     if new_viols:
         rdir = VERIF / "replay" / prop
